@@ -512,7 +512,7 @@ def c02_monitor(s, a, rt):
         p = l.split(" ")
         if p[0] == "R":
             kv = dict(x.split("=", 1) for x in p if "=" in x)
-            cur = kv["cur"]
+            cur = kv.get("cur", cur)
             block_tid = None
             continue
         if p[0] == "T":
